@@ -13,6 +13,7 @@ ASSUMPTIONS = ["bit-for-bit equality of solver input follows from the absence of
 
 def run(ctx):
     n = state.r_reset(ctx)
+    state.r_process_memo(ctx)   # memo tables of functools decorators and defaults evaluated once survive the reset routine
     v = state.r_verbose(ctx)
     state.r_determ(ctx)
     solveprog.r_solve_program(ctx, {"verbosity"})
